@@ -189,6 +189,28 @@ pub fn history(seed: u64, focus: &str, faults: bool, thorough: bool) -> Generate
         if !op.allowed(&model) {
             continue;
         }
+        // a consumer of generative definitions usually gets the matching provider behind its import
+        if follow_up.is_none() {
+            if let Op::SetOverlay { slot, content } | Op::WriteRefresh { slot, content } | Op::SilentWrite { slot, content } = &op {
+                if content.name.starts_with("gen-consumer") {
+                    let target = content.imports[0].slot;
+                    if target < SLOTS.len()
+                        && target != *slot
+                        && target != SLOT_INPUT
+                        && !SLOTS[target].ends_with(".zyi")
+                        && active.contains(&target)
+                        && rng.chance(3, 4)
+                    {
+                        let provider = content::generative_provider(rng.range(2, 97));
+                        follow_up = Some(if rng.chance(1, 2) {
+                            Op::SetOverlay { slot: target, content: provider }
+                        } else {
+                            Op::WriteRefresh { slot: target, content: provider }
+                        });
+                    }
+                }
+            }
+        }
         // contextual follow-ups: put the next edit where in-flight state was just created
         if follow_up.is_none() && rng.chance(1, 3) {
             follow_up = match &op {
